@@ -842,7 +842,12 @@ class Interp:
             for s in stmts:
                 if s.kind == 'assign':
                     hint = fr.fn.locals.get(s.place.local) if (s.rv.kind == 'variant' and not s.place.proj) else None
-                    self.write_place(fr, s.place, self.rvalue(fr, s.rv, hint))
+                    try:
+                        self.write_place(fr, s.place, self.rvalue(fr, s.rv, hint))
+                    except Unsupported as e:
+                        if ' @ ' not in str(e):
+                            raise Unsupported('%s @ %s: %s' % (e, fr.fn.name[-50:], s.text[:160]))
+                        raise
                 elif s.kind == 'setdiscr':
                     raise Unsupported("SetDiscriminant")
             k = term.kind
@@ -904,7 +909,9 @@ class Interp:
         for rx, fn in self.hooks.items():
             m = re.search(rx, callee_s)
             if m:
-                return fn(self, fr, callee_s, args)
+                r = fn(self, fr, callee_s, args)
+                if r is not NotImplemented:
+                    return r
         if self.trace_calls:
             print('  ' * self.depth + 'call', callee_s)
         r = self.models.dispatch(self, fr, callee_s, args)
